@@ -354,6 +354,88 @@ func main() {
 			})
 			t.Note(fmt.Sprintf("messages of <=%d units from 10 valid/invalid/truncated sequences, every split into <=3 fragments at every byte position (empty fragments included), optional Ping after each fragment, Text/Binary, second message on the same reader, both sides, 4 drivers, chunk inf/1", maxUnits))
 		})
+
+		// A text message read only partially (possibly stopping inside a multi-byte sequence) and
+		// then discarded must not influence the verdict on the next message of the same reader.
+		r.Part("E4-partial-read-discard-then-next-message", func(t *explore.T) {
+			firsts := [][]byte{[]byte("ab"), {0xC3, 0xA9, 'x'}, {0xE2, 0x82, 0xAC}, {0xF0, 0x9F, 0x98, 0x80, 'z'}, {'a', 0xE2, 0x82, 0xAC}, {'a', 0xFF, 'b'}, {0xE2, 0x82}}
+			seconds := [][]byte{[]byte("hello"), {0x81}, {0xC3, 0xA9}, {0x82, 0xAC}, {}}
+			for _, side := range []streams.Side{streams.Server, streams.Client} {
+				for _, first := range firsts {
+					for _, second := range seconds {
+						for k := 0; k <= 2; k++ {
+							for _, nfrag := range []int{1, 2} {
+								for _, ch := range []int{0, 1} {
+									side, first, second, k, nfrag, ch := side, first, second, k, nfrag, ch
+									t.Do(func() string {
+										return fmt.Sprintf("%s first=%x (frags=%d) read %d byte(s) then Discard; second=%x chunk=%d", side, first, nfrag, k, second, ch)
+									}, func() *explore.Fail {
+										var frames []streams.Frame
+										mkf := func(o byte, fin bool, p []byte) streams.Frame {
+											return streams.Frame{H: refmodel.Hdr{Fin: fin, Op: o, Masked: side == streams.Server, Mask: streams.Masks[len(frames)%3]}, Payload: p}
+										}
+										if nfrag == 1 {
+											frames = append(frames, mkf(1, true, first))
+										} else {
+											frames = append(frames, mkf(1, false, first[:1]), mkf(0, true, first[1:]))
+										}
+										frames = append(frames, mkf(1, true, second))
+										data, _ := streams.Wire(frames)
+										src := env.NewSrc(data)
+										src.Policy = env.FixedChunk(ch)
+										var res drivers.Result
+										drivers.ReaderDiscard(k).Run(src, side, drivers.Cfg{CheckUTF8: true}, &res)
+										// what the first k bytes mean for the validator
+										st := ""
+										n := k
+										if n > len(first) {
+											n = len(first)
+										}
+										for _, b := range first[:n] {
+											st = refStep(st, b)
+										}
+										if st == "!" {
+											if res.Err != wsutil.ErrInvalidUTF8 {
+												return explore.Failf("invalid-prefix-not-reported", "err=%v", res.Err)
+											}
+											t.Outcome("first-prefix-invalid")
+											return nil
+										}
+										if n == len(first) && k >= len(first) && !utf8.Valid(first) {
+											// the whole first message was read and is invalid: an error is due
+											if res.Err != wsutil.ErrInvalidUTF8 {
+												return explore.Failf("invalid-first-not-reported", "err=%v", res.Err)
+											}
+											t.Outcome("first-invalid")
+											return nil
+										}
+										if len(res.Events) == 0 {
+											return explore.Failf("first-message-lost", "err=%v", res.Err)
+										}
+										// second message judged on its own
+										wantSecond := utf8.Valid(second)
+										gotSecond := len(res.Events) >= 2
+										if wantSecond && !(gotSecond && res.Err == io.EOF) {
+											return explore.Failf("valid-message-rejected-after-discarded-one", "second=%x events=%s err=%v", second, drivers.FmtEvents(res.Events), res.Err)
+										}
+										if !wantSecond {
+											// ReaderDiscard reads k bytes of the second message too, then discards it: an
+											// invalid second message may therefore be skipped unread; it must never be
+											// delivered *complete* as valid when it was read to its end
+											if k >= len(second) && len(second) > 0 && gotSecond && res.Err == io.EOF {
+												return explore.Failf("invalid-message-accepted-after-discarded-one", "second=%x events=%s", second, drivers.FmtEvents(res.Events))
+											}
+										}
+										t.Outcome(fmt.Sprintf("second-valid=%v", wantSecond))
+										return nil
+									})
+								}
+							}
+						}
+					}
+				}
+			}
+		})
 	})
 }
 
